@@ -494,6 +494,9 @@ func (k *checker) runFiles(base int) bool {
 	if c.Mine(base + 100000) {
 		k.afterFailedWrite()
 	}
+	if c.Mine(base + 100001) {
+		k.afterFailedRead()
+	}
 	c.Bound("a.files", "every sequence of 1..3 obj.Save calls over a menu of three meshes (6, 2, 1 triangles) to one path, then obj.Load")
 	return !stop
 }
@@ -518,4 +521,48 @@ func (k *checker) afterFailedWrite() {
 		return
 	}
 	k.c.Eval("files/after-failed-write", "ok")
+}
+
+// a read after a failed read (core.AfterFailedRead): obj.ReadMesh of a small good text right after the
+// text of three meshes with materials, normals and texture coordinates was cut or damaged at every
+// position; the good text re-uses the corner spellings of the damaged one (1, 1/1, 1/1/1, 1//1).
+func (k *checker) afterFailedRead() {
+	big := []obj.ObjMesh{fileMenu[0].build(), fileMenu[1].build(), fileMenu[0].build()}
+	big[0].Name, big[1].Name, big[2].Name = "a", "b", "c"
+	var bb bytes.Buffer
+	if err := obj.WriteMeshes(big, "", &bb); err != nil {
+		return
+	}
+	bad := core.BadInputs(bb.Bytes(), 4000)
+	// hand-written damaged texts: the failure arrives after faces of the open group were read
+	for _, syn := range []string{"1 2 3", "1/1 2/2 3/3", "1/1/1 2/2/2 3/3/3", "1//1 2//2 3//3"} {
+		head := "v 5 5 5\nv 6 5 5\nv 5 6 5\nvt 0 0\nvt 1 0\nvt 0 1\nvn 0 0 1\nvn 0 1 0\nvn 1 0 0\ng open\nf " + syn + "\n"
+		bad = append(bad, []byte(head+"v 1 oops 3\n"), []byte(head+"f 1/x 2 3\n"), []byte(head+"f 1 2 9999\n"), []byte(head+"vt a b\n"), []byte(head+"vn 1 2\n"))
+	}
+	goods := []string{
+		"v 0 0 0\nv 1 0 0\nv 0 1 0\nv 0 0 1\nf 1 2 3\nf 1 3 4\n",
+		"v 0 0 0\nv 1 0 0\nv 0 1 0\nvt 0 0\nvt 1 0\nvt 0 1\nvn 0 0 1\ng z\nf 1/1/1 2/2/1 3/3/1\n",
+		"v 0 0 0\nv 1 0 0\nv 0 1 0\nvt 0.5 0.5\nvt 1 0\nvt 0 1\ng y\nf 1/1 2/2 3/3\n",
+		"v 0 0 0\nv 1 0 0\nv 0 1 0\nvn 0 0 1\nvn 0 1 0\nvn 1 0 0\ng x\nf 1//1 2//2 3//3\n",
+	}
+	read := func(data []byte) (string, error) {
+		ms, _, err := obj.ReadMesh(bytes.NewReader(data))
+		if err != nil {
+			return "", err
+		}
+		var sb strings.Builder
+		for _, m := range ms {
+			fmt.Fprintf(&sb, "%q:%x;", m.Name, meshlib.QuickHash(m.Mesh))
+		}
+		return sb.String(), nil
+	}
+	k.c.Nontrivial("after-failed-read")
+	for _, g := range goods {
+		if why := core.AfterFailedRead(bad, []byte(g), read); why != "" {
+			k.c.Eval("files/after-failed-read", "mismatch")
+			k.fail("obj.ReadMesh", "reading a text yields the meshes of that text (also right after an earlier read failed)", "after-failed-read", why, Case{Kind: "after-failed-read"})
+			return
+		}
+	}
+	k.c.Eval("files/after-failed-read", "ok")
 }
